@@ -139,6 +139,8 @@ type Outcome struct {
 	C           []*COut
 	B           []*BOut
 	Inputs      [][]byte
+	Prep        *Prep
+	TwinSinks   [][][]byte
 	World       *World
 	Probes      *Probes
 	Panics      []string
@@ -226,6 +228,8 @@ func (x *run) wopts(o plan.WOpts, inputLen int) []lz4.Option {
 		opts = append(opts, lz4.SizeOption(uint64(inputLen)))
 	case o.Size > 0:
 		opts = append(opts, lz4.SizeOption(uint64(o.Size)))
+	default:
+		opts = append(opts, lz4.SizeOption(0))
 	}
 	opts = append(opts, lz4.CompressionLevelOption(levelOf(o.Level)))
 	return opts
@@ -302,6 +306,7 @@ func (x *run) runWriter(idx int, cs *ClientState) {
 		return zw.Apply(opts...)
 	}
 	out.ApplyErr = classify(applyAll(ws.Opts))
+	curOpts := ws.Opts
 	scratch := []byte(nil)
 	for _, op := range ws.Ops {
 		r := WOpOut{Op: op.Op, Sink: cur}
@@ -359,8 +364,18 @@ func (x *run) runWriter(idx int, cs *ClientState) {
 				cur = op.Sink
 				r.Sink = cur
 				zw.Reset(out.Sinks[cur])
+			case "renew":
+				// a brand-new Writer with the options in effect (Reset equivalence)
+				x.w.EndEpoch(cs, false)
+				cur = op.Sink
+				r.Sink = cur
+				zw = lz4.NewWriter(out.Sinks[cur])
+				r.Err = classify(applyAll(curOpts))
 			case "apply":
 				r.Err = classify(applyAll(*op.Opts))
+				if r.Err.Nil {
+					curOpts = *op.Opts
+				}
 			default:
 				panic("unknown writer op " + op.Op)
 			}
@@ -482,6 +497,8 @@ func (x *run) runReader(idx int, cs *ClientState) {
 				x.w.EndEpoch(cs, false)
 				cur = op.Src
 				r.Src = cur
+				// a fresh source object over the same stored bytes
+				out.Srcs[cur] = NewSimSource(x.w, fmt.Sprintf("R%d.%d", idx, cur), out.Stored[cur], rs.Srcs[cur], x.prep.Bounds[idx][cur])
 				zr.Reset(out.Srcs[cur])
 				out.Delivered = append(out.Delivered, nil)
 			case "apply":
@@ -504,6 +521,11 @@ func (x *run) runReader(idx int, cs *ClientState) {
 // reported a source or decoding error (C08's leak clause).
 func (x *run) judgeReaderErr(cs *ClientState, err error, src *SimSource) {
 	if err == nil {
+		return
+	}
+	// misuse of the API is neither the end of the stream nor a source or
+	// decoding error: the pipeline may legitimately stay parked
+	if errors.Is(err, lz4.ErrInternalUnhandledState) || errors.Is(err, lz4.ErrOptionClosedOrError) {
 		return
 	}
 	x.w.MarkJudged(cs)
@@ -694,6 +716,8 @@ func (e *Executor) bubble(p *plan.Plan, out *Outcome) {
 	}
 	x.prep = &Prep{Stored: make([][][]byte, len(p.Readers)), Bounds: make([][][]int, len(p.Readers)),
 		Fields: make([][][]ref.Field, len(p.Readers)), Base: make([][][]byte, len(p.Readers))}
+	out.Prep = x.prep
+	out.Prep = x.prep
 	theWorld = w
 	ok := true
 	for _, phase := range p.Phases {
